@@ -980,6 +980,10 @@ def feature_family() -> List[Tuple[str, str]]:
     F["fstring_quotes"] = H + M + 'while True:\n    v = analog_read("A0")\n    mon.write(f"v=\\"{v}\\" ok")\n'
     F["nested_fn_devices"] = H + 'led = Led(13)\nrgb = RGBLed(3, 5, 6)\ndef alert():\n    led.on()\n    rgb.set_color(255, 0, 0)\n    sleep(10)\n    led.off()\nwhile True:\n    alert()\n'
     F["while_cond_call"] = H + M + 'pot = Potentiometer("A0")\nwhile True:\n    while pot.read() > 900:\n        mon.write("hi")\n    sleep(1)\n'
+    F["fn_two_types_forward"] = H + M + 'def show(k):\n    a = twice(k)\n    b = twice("ab")\n    mon.write(a)\n    mon.write(b)\ndef twice(v):\n    return v + v\nwhile True:\n    show(3)\n'
+    F["fn_two_types_backward"] = H + M + 'def twice(v):\n    return v + v\ndef show(k):\n    a = twice(k)\n    b = twice("ab")\n    mon.write(a)\n    mon.write(b)\nwhile True:\n    show(3)\n'
+    F["fn_two_types_toplevel"] = H + M + 'def twice(v):\n    return v + v\na = twice(4)\nb = twice("ab")\nwhile True:\n    mon.write(a)\n    mon.write(b)\n'
+    F["fn_param_reassigned_two_types"] = H + M + 'def clamp(v):\n    if v > 100:\n        v = 100\n    return v\nhalf = 0.5\nlo = clamp(250)\nhi = clamp(half)\nwhile True:\n    mon.write(lo)\n    mon.write(hi)\n'
     F["global_in_fn"] = H + M + 'count = 0\ndef bump():\n    global count\n    count += 1\nwhile True:\n    bump()\n    mon.write(count)\n'
     return [(f"feature/{k}", v) for k, v in F.items()]
 
